@@ -511,7 +511,7 @@ func (fr *frame) concretizeRange(s symInt, lo, hi int, what string) int {
 // concretizeAny forks over the feasible values of s (at most 64 of them), returning the value on this path.
 func (fr *frame) concretizeAny(s symInt, what string) value {
 	for n := 0; n < 64; n++ {
-		val, ok := fr.i.p.modelValue(fr.i, s.t)
+		val, ok := fr.i.p.scriptedModelValue(fr.i, s.t)
 		if !ok {
 			break
 		}
@@ -558,7 +558,7 @@ func (fr *frame) pickConcrete(v value, t types.Type) value {
 	switch v := v.(type) {
 	case symInt:
 		for {
-			val, ok := fr.i.p.modelValue(fr.i, v.t)
+			val, ok := fr.i.p.scriptedModelValue(fr.i, v.t)
 			if !ok {
 				panic(pathAbort{"unsupported", "cannot concretize symbolic value"})
 			}
@@ -577,6 +577,8 @@ func (fr *frame) pickConcrete(v value, t types.Type) value {
 			}
 		}
 		return mkString(b)
+	case iface:
+		return iface{v.t, fr.pickConcrete(v.v, v.t)}
 	}
 	panic(unsupported(fmt.Sprintf("concretize %T", v)))
 }
